@@ -41,16 +41,19 @@ func (s *StopLossStrategy) Compute(snapshots <-chan *asset.Snapshot) <-chan stra
 	innerActions := s.InnertStrategy.Compute(snapshotsSplice[0])
 	closings := asset.SnapshotsAsClosings(snapshotsSplice[1])
 	stopLossAt := 0.0
+	bought := false
 
 	return helper.Operate(innerActions, closings, func(action strategy.Action, closing float64) strategy.Action {
 		// If action is Buy and the asset is not yet bought, buy it as recommended.
-		if action == strategy.Buy && stopLossAt == 0.0 {
+		if action == strategy.Buy && !bought {
+			bought = true
 			stopLossAt = closing * (1 - s.Percentage)
 			return strategy.Buy
 		}
 
 		// If asset is bought and action is sell or closing is less than or equal to stop loss at, recommend sell.
-		if stopLossAt != 0 && (action == strategy.Sell || closing <= stopLossAt) {
+		if bought && (action == strategy.Sell || closing <= stopLossAt) {
+			bought = false
 			stopLossAt = 0.0
 			return strategy.Sell
 		}
